@@ -56,6 +56,12 @@ def main():
         ck.discharged = sum(1 for t, ax in axioms.items() if ax is not None and all(x in L.ALLOWED_AXIOMS for x in ax))
         if not aok:
             proof_ok = False; ck.notes.append('axiom audit failed: ' + alog[-2000:])
+        if a.tier == 'thorough':
+            # independent re-check of the compiled theorem modules by the toolchain's leanchecker (replays every declaration in the kernel)
+            rc, out = L.sh(['lake', 'env', 'leanchecker'] + list(modules), cwd=L.LEAN, timeout=1800)
+            ck.notes.append('leanchecker ' + ' '.join(modules) + ': rc=%d' % rc)
+            if rc != 0:
+                proof_ok = False; ck.notes.append('leanchecker rejected the compiled modules: ' + out[-1500:])
     # ---- 2. implementation
     if not a.no_build:
         bin_ok, har_ok, blog = L.build_impl()
